@@ -99,13 +99,9 @@ def _len_choices(spf):
     return sorted(set([1, 2, 3, max(1, spf - 1), spf, spf + 1, 2 * spf, 2 * spf + 1, 3 * spf + 2, 5 * spf, max(1, spf // 2)]))
 
 
-@st.composite
-def write_ops(draw, cfg, max_calls=8, max_files=5, allow_blocks=True, allow_empty=False):
-    """A valid write sequence (relative indices) for cfg."""
+def draw_op(draw, cfg, nxt, allow_blocks=True, allow_empty=False, max_files=5, max_blocks=5):
+    """Draw one valid op that starts at or after relative index ``nxt``.  Returns (op, new_next)."""
     spf = _spf(cfg["n"], cfg["d"], cfg["F"])
-    ncalls = draw(st.integers(1, max_calls))
-    ops = []
-    nxt = 0
     cap = max_files * spf + 2
 
     def boundary_gap(pos):
@@ -143,32 +139,38 @@ def write_ops(draw, cfg, max_calls=8, max_files=5, allow_blocks=True, allow_empt
         ln = draw(st.one_of(st.sampled_from(_len_choices(spf)), st.integers(1, max(1, min(cap, 3 * spf)))))
         return max(1, min(ln, cap))
 
+    use_blocks = allow_blocks and draw(st.integers(0, 2)) == 0
+    gap = draw_gap(nxt)
+    if not use_blocks:
+        if allow_empty and draw(st.integers(0, 14)) == 0:
+            return {"op": "w", "idx": nxt + gap, "len": 0}, nxt
+        ln = draw_len()
+        return {"op": "w", "idx": nxt + gap, "len": ln}, nxt + gap + ln
+    nb = draw(st.integers(1, max_blocks))
+    g, dd = [], []
+    off = 0
+    pos = nxt + gap
+    for bi in range(nb):
+        ln = draw_len()
+        g.append(pos)
+        dd.append(off)
+        off += ln
+        pos += ln
+        if bi + 1 < nb:
+            gg = draw_gap(pos)
+            pos += max(1, gg)  # consecutive blocks must be separated by >= 1 (else same block)
+    return {"op": "b", "len": off, "g": g, "d": dd}, pos
+
+
+@st.composite
+def write_ops(draw, cfg, max_calls=8, max_files=5, allow_blocks=True, allow_empty=False):
+    """A valid write sequence (relative indices) for cfg."""
+    ncalls = draw(st.integers(1, max_calls))
+    ops = []
+    nxt = 0
     for _ in range(ncalls):
-        use_blocks = allow_blocks and draw(st.integers(0, 2)) == 0
-        gap = draw_gap(nxt)
-        if not use_blocks:
-            if allow_empty and draw(st.integers(0, 14)) == 0:
-                ops.append({"op": "w", "idx": nxt + gap, "len": 0})
-                continue
-            ln = draw_len()
-            ops.append({"op": "w", "idx": nxt + gap, "len": ln})
-            nxt = nxt + gap + ln
-        else:
-            nb = draw(st.integers(1, 5))
-            g, dd = [], []
-            off = 0
-            pos = nxt + gap
-            for bi in range(nb):
-                ln = draw_len()
-                g.append(pos)
-                dd.append(off)
-                off += ln
-                pos += ln
-                if bi + 1 < nb:
-                    gg = draw_gap(pos)
-                    pos += max(1, gg)  # consecutive blocks must be separated by >= 1 (else same block)
-            ops.append({"op": "b", "len": off, "g": g, "d": dd})
-            nxt = pos
+        op, nxt = draw_op(draw, cfg, nxt, allow_blocks, allow_empty, max_files)
+        ops.append(op)
     return ops
 
 
